@@ -5932,20 +5932,21 @@ def code_as_constant(
 
         code = -code.value if neg else code.value
 
-        if isinstance(code, float):
-            if not code:  # normalize -0.0
-                code = 0.0
-
-        elif isinstance(code, complex):
-            if code.real:
-                raise NodeError('imaginary Constants cannot have real componenets')
-
-            code = complex(0.0, code.imag or 0.0)  # normalize -0.0 in real or imag
-
     elif isinstance(code, list):
         code = '\n'.join(code)
     elif not isinstance(code, constant):
         raise _coerce_error('Constant', code.__class__.__qualname__)
+
+    if isinstance(code, float):  # these apply to primitive values passed directly as well
+        if not code:  # normalize -0.0
+            code = 0.0
+
+    elif isinstance(code, complex):
+        if code.real:
+            raise NodeError('imaginary Constants cannot have real componenets')
+
+        if repr(norm := complex(0.0, code.imag or 0.0)) != repr(code):  # normalize -0.0 in real or imag, keep the object if nothing to do
+            code = norm
 
     return code
 
